@@ -188,7 +188,7 @@ class ModelApiHarness(Harness):
                  "this harness has no numeric symbol: selector variables are decided by the solver (exhaustive over the bound)")
   outside = ("universes other than the 7 listed 5-element ones; more than two documents / three regions",
              "sibling orders other than index order in the pre-state")
-  required_witnesses = ("accepted", "rejected", "pre-state-with-tree", "pre-state-cross-doc")
+  required_witnesses = ("accepted", "rejected", "pre-state-with-tree", "pre-state-cross-doc", "pre-state-with-body")
   bounds = {"quick": "7 universes of 5 typed elements (every kind pair the content model relates), 2 documents, 3 registered "
                      "regions, every parent array, element 4 in either document, element 1 with any region reference; "
                      "14 operations x every argument tuple over the universe incl. invalid ones",
@@ -206,7 +206,7 @@ class ModelApiHarness(Harness):
     for i, k in enumerate(kinds):
       nd = 1
       if i == n - 1:
-        nd = 2 if ex.tier == "quick" else 3
+        nd = 3          # document 0, document 1, or no document (detached)
       elif i == n - 2 and ex.tier == "thorough":
         nd = 3
       di = ex.choice("doc%d" % i, nd)
@@ -215,10 +215,12 @@ class ModelApiHarness(Harness):
       cls = getattr(model, k)
       e = cls(d) if k != "Text" else model.Text(d, "x")
       w.elems.append(e)
-    # region reference on element 1
+    # region reference on element 1, and on element 0 (the body in the first universe)
     rc = ex.choice("region1", 3)
     if rc and kinds[1] not in ("Br", "Text") and doc_of[1] == 0:
       r, exc = call(ex, w.elems[1].set_region, w.regions[(0, "r%d" % rc)])
+    if kinds[0] not in ("Br", "Text") and doc_of[0] == 0 and ex.boolean("region0"):
+      r, exc = call(ex, w.elems[0].set_region, w.regions[(0, "r1")])
     # parent array, attached in index order as soon as chosen; Ruby/Rtc get their group through push_children.
     # Candidate parents are those the documented content model allows (the real API still decides: a rejection
     # discards the path); what the API accepts beyond the content model is found by the operation step.
@@ -243,6 +245,11 @@ class ModelApiHarness(Harness):
       _, exc = call(ex, w.elems[p].push_children, [w.elems[i] for i in idxs])
       if exc:
         raise Infeasible()
+    if kinds[0] == "Body" and doc_of[0] == 0 and ex.boolean("body_set"):
+      _, exc = call(ex, w.docs[0].set_body, w.elems[0])
+      if exc:
+        raise Infeasible()
+      ex.witness("pre-state-with-body")
     if any(p >= 0 for p in parent):
       ex.witness("pre-state-with-tree")
     if any(d == 1 for d in doc_of):
@@ -317,8 +324,14 @@ class ModelApiHarness(Harness):
                    (SP.FontFamily, (styles.GenericFontFamilyType.serif, "Arial")), (SP.FontSize, 12),
                    (SP.FontFamily, (styles.GenericFontFamilyType.serif, 42)), (SP.FontFamily, ("Arial", styles.GenericFontFamilyType.default, None)),
                    (SP.FontFamily, (7, "Arial"))][vi]
+      preset = ex.boolean("property_already_set")
+      if preset:
+        # the property already holds a valid value: a rejected call must leave it in place
+        _, e0 = call(ex, a.set_style, prop, {SP.Color: styles.NamedColors.blue.value, SP.FontFamily: ("Verdana",),
+                                             SP.FontSize: styles.LengthType(2, styles.LengthType.Units.em)}[prop])
+        before = fingerprint(w)
       res, exc = call(ex, a.set_style, prop, val)
-      args = {"a": kind(a), "value": vi}
+      args = {"a": kind(a), "value": vi, "already_set": preset}
     elif op == "add_animation_step":
       vi = ex.choice("v", 5)
 
